@@ -19,7 +19,7 @@ VS_SPECS = [("i:1", 6), ("i:0", 6), ("i:-3", 1), ("s:yes", 1), ("s:", 1), ("arr"
 class C20(Prop):
     id = "C20"
     title = "uid/euid change only as the master allows; without euid no object creation"
-    lean_modules = ["NV.C20.Props", "NV.C20.Tie", "NV.C20.Negative"]
+    lean_modules = ["NV.C20.Props", "NV.C20.Tie", "NV.C20.Negative", "NV.C20.Consequences"]
     theorems = [
         "NV.C20.model_satisfies_spec",
         "NV.C20.euid_changes_only_by_own_approved_seteuid",
@@ -30,17 +30,24 @@ class C20(Prop):
         "NV.C20.seteuid_always_asks_master",
         "NV.C20.no_crash",
         "NV.C20.every_object_has_uid",
+        # consequences of the specification for EVERY accepted trace (model and real driver), and their model instances
+        "NV.C20.euid_names_granted", "NV.C20.euid_names_granted_from_start", "NV.C20.uid_names_decided",
+        "NV.C20.model_euid_names_granted", "NV.C20.model_uid_names_decided",
         # translator ties: the regenerated guards / statements equal what the model does
         "NV.C20.tie_load_guard", "NV.C20.tie_load_no_current", "NV.C20.tie_load_test_first",
         "NV.C20.tie_clone_entry", "NV.C20.tie_clone_retest", "NV.C20.tie_clone_order",
-        "NV.C20.tie_export_error", "NV.C20.tie_export_target", "NV.C20.tie_export_assign",
-        "NV.C20.tie_seteuid_shape", "NV.C20.tie_seteuid_verdict", "NV.C20.tie_seteuid_null_verdict",
-        "NV.C20.tie_giveuid_shape",
+        "NV.C20.tie_export_error", "NV.C20.tie_export_target", "NV.C20.tie_seteuid_verdict", "NV.C20.tie_seteuid_null_verdict",
         # round 5: inventory of every uid/euid write in the driver; interleaved statement order of the anchor functions
         "NV.C20.tie_uid_writes_governed", "NV.C20.tie_uid_write_inventory", "NV.C20.tie_uid_rules_all_used", "NV.C20.tie_uid_records_never_renamed",
-        "NV.C20.tie_seteuid_order", "NV.C20.tie_export_order", "NV.C20.tie_set_master_shape", "NV.C20.tie_reload_shape",
-        "NV.C20.tie_load_tail_shape", "NV.C20.tie_clone_shape", "NV.C20.tie_init_object_shape", "NV.C20.tie_load_virtual_shape", "NV.C20.tie_bind_shape",
+        "NV.C20.tie_load_tail_shape", "NV.C20.tie_clone_shape", "NV.C20.tie_init_object_shape",
         "NV.C20.tie_make_new_name_shape", "NV.C20.tie_destruct_vital_shape", "NV.C20.tie_error_texts",
+        # round 6: decision trees (symbolic execution of the C functions) = the model
+        "NV.C20.tie_giveuid_tree", "NV.C20.tie_giveuid_tree_premaster", "NV.C20.tie_giveuid_semantics", "NV.C20.tie_seteuid_tree",
+        "NV.C20.tie_export_tree", "NV.C20.tie_reload_tree", "NV.C20.tie_set_master_tree", "NV.C20.tie_bind_tree",
+        "NV.C20.tie_load_virtual_tree",
+        "NV.C20.tie_seteuid_write_dominated", "NV.C20.tie_giveuid_writes_dominated", "NV.C20.tie_export_write_dominated",
+        "NV.C20.tie_master_write_dominated", "NV.C20.tie_bind_write_dominated",
+        "NV.C20.tie_export_semantics", "NV.C20.tie_seteuid_int_semantics", "NV.C20.tie_seteuid_str_semantics",
     ]
     consts = [("autoTrustBackbone", "NV_AUTO_TRUST_BACKBONE"), ("autoSeteuid", "NV_AUTO_SETEUID"),
               ("tNumber", "T_NUMBER"), ("tString", "T_STRING"), ("msMudlibLimbo", "MS_MUDLIB_LIMBO"),
@@ -55,50 +62,63 @@ class C20(Prop):
     search_n = 1500
     design_ref = "5/C20"
     technique = ("Lean 4 proof (invariant + per-segment oracle clauses, induction over histories and over the nesting fuel, all master "
-                 "policies as oracle functions) + translator (clang AST -> regenerated guards, statement-order shapes, inventory of "
-                 "every uid/euid write in the driver, bridged by Lean lemmas) + model/implementation correspondence on the real driver")
+                 "policies as oracle functions) + translator (clang AST -> regenerated guards, DECISION TREES obtained by symbolic "
+                 "execution of the C functions, inventory of every uid/euid write in the driver; bridged by Lean lemmas) + "
+                 "model/implementation correspondence on the real driver")
     level_text = ("Lean 4 theorems about an executable model of give_uid_to_object, the euid tests of load_object/clone_object "
-                  "(master exemption, none for the simul_efun object), f_seteuid, f_export_uid, f_getuid/f_geteuid, f_bind (master "
-                  "valid_bind), reload_object and set_master (first load with/without get_root_uid()/get_bb_uid(), reload with a "
-                  "changed get_root_uid() answer): for every history of load/clone/seteuid/export_uid/destruct/reload_object/"
-                  "function-pointer evaluation/bind() by any objects incl. the master and the simul_efun object (also from inside "
-                  "create() of objects under construction, also of virtual objects made by master::compile_object, also with a "
-                  "master whose creator_file calls back into itself and drops its euid mid-creation) and every master policy the "
-                  "specification oracle judgeEv (8 clauses) accepts the model's event trace; the model is tied to the source by 29 "
-                  "regenerated bridging lemmas: path conditions of the euid tests, MASTER_APPROVED semantics, interleaved statement "
-                  "order of f_seteuid/f_export_uid/f_bind/set_master/reload_object/load_object/clone_object/give_uid_to_object, and an "
-                  "inventory of EVERY write to object_t.uid/euid in src/ and lib/ with a Lean-checked table that each falls under an "
-                  "enumerated rule and is dominated by the master apply it needs; and by running the real driver (ASan+UBSan) with a "
-                  "policy-switchable logging master (8 variants) and the model on the same generated histories; the same oracle "
-                  "judges every implementation trace")
-    level_note = ("trusted: Lean kernel; extract.py and props/c20_extract.py (clang-14 AST translator, source text scan); the "
-                  "correspondence harness (differential, only the generated histories); master applies are oracle functions; a "
-                  "master calling back into ANOTHER creating object during creator_file, call_out/heart_beat/preload/connect "
-                  "contexts, shadows and the uid AVL tree are outside the model")
-    rule = ("cases = corpus + boundary list + seeded random histories of load (also through call_other / tell_room on a file name)/clone/seteuid(string|int)/"
-            "export_uid (also onto itself / onto missing objects)/destruct (also of the master = master reload, also after "
-            "get_root_uid()/get_bb_uid() changed their answers; of the simul_efun object)/reload_object, directly, from inside create() "
-            "of objects under construction (acyclic scripts, nesting up to 8), through function pointers evaluated by other objects, "
-            "through efun pointers re-bound with bind() (valid_bind verdicts), and on virtual paths answered by "
-            "master::compile_object, performed by the master, the simul_efun object and objects under five directories whose "
-            "creator_file answer (own name, other user's name, backbone uid, root uid, NONAME, empty string, int, array, 0, "
-            "runtime error, each optionally after the master dropped its own euid inside the apply) and valid_seteuid / valid_bind "
-            "verdicts (1, 0, other ints, string, array, 0, runtime error; per object and uid) are switched during the case; one "
-            "case in four under another configuration (master without get_root_uid / get_bb_uid / valid_bind, simul_efun object as "
-            "actor); a case is non-trivial when its trace has >= 2 lines; distinct = distinct canonical implementation trace")
+                  "(master exemption, none for the simul_efun object), inherit-triggered nested loads, master valid_object, f_seteuid, "
+                  "f_export_uid, f_getuid/f_geteuid (objects and functions), f_bind (master valid_bind), reload_object and set_master "
+                  "(first load with/without get_root_uid()/get_bb_uid(), reload with a changed get_root_uid() answer): for every "
+                  "history of load/clone/seteuid/export_uid/destruct/reload_object/function-pointer evaluation/bind() by any objects "
+                  "incl. the master and the simul_efun object (also from inside create() of objects under construction, also of "
+                  "virtual objects made by master::compile_object, also with a master whose creator_file calls back into itself and "
+                  "drops its euid mid-creation) and every master policy the specification oracle judgeEv (10 clauses: known, euid, "
+                  "uid, creation, noeuid, export, asked, bind, fp, vo) accepts the model's event trace (model_satisfies_spec); for EVERY "
+                  "accepted trace - model or real driver - every euid name was granted by the master and every uid name decided by it "
+                  "(euid_names_granted, uid_names_decided); the "
+                  "model is tied to the source by 37 regenerated bridging lemmas: path conditions of the euid tests, decision trees "
+                  "of give_uid_to_object / f_seteuid / f_export_uid / reload_object / set_master / f_bind / load_virtual_object "
+                  "obtained by symbolic execution of their clang AST and proved equal to the model (tie_giveuid_semantics, tie_export_semantics, tie_seteuid_*_semantics: for every "
+                  "configuration, world, object and master answer), dominance theorems (every uid/euid write on every path is "
+                  "preceded by the master apply and verdict it needs), an inventory of EVERY write to object_t.uid/euid in src/ and "
+                  "lib/, uid records never renamed after the first master load; and by running the real driver (ASan+UBSan) with a "
+                  "policy-switchable logging master (8 variants) and the model on the same generated histories, reaching object "
+                  "creation through load_object, clone_object, call_other / tell_room / filter on a file name, bound efun pointers, "
+                  "call_out, heart_beat, preload_objects(), mudlib_connect() and inherit; the same oracle judges every "
+                  "implementation trace")
+    level_note = ("trusted: Lean kernel; extract.py and props/c20_extract.py (clang-14 AST translator incl. the symbolic executor, "
+                  "source text scan); the correspondence harness (differential, only the generated histories); master applies are "
+                  "oracle functions; a master calling back into ANOTHER creating object during creator_file, shadows and the uid "
+                  "AVL tree are outside the model; the loading efuns other than load_object/clone_object and the driver-started "
+                  "contexts are compared with (not separately modelled from) the plain ops")
+    rule = ("cases = corpus + boundary list + seeded random histories of load (also through call_other / tell_room / filter on a file "
+            "name, preload_objects(), an inheriting blueprint)/clone (also through mudlib_connect())/seteuid(string|int)/"
+            "export_uid (also onto itself / onto missing objects, chains)/destruct (also of the master = master reload, also after "
+            "get_root_uid()/get_bb_uid() changed their answers; of the simul_efun object)/reload_object, directly, from call_out and "
+            "heart_beat, from inside create() of objects under construction (acyclic scripts, nesting up to 8), through function "
+            "pointers evaluated by other objects, through efun pointers re-bound with bind() (valid_bind verdicts), and on virtual "
+            "paths answered by master::compile_object, performed by the master, the simul_efun object and objects under five "
+            "directories (loaders whose euid differs from their uid included) whose creator_file answer (own name, other user's "
+            "name, backbone uid, root uid, NONAME, empty string, names differing in case, int, array, 0, runtime error, each "
+            "optionally after the master dropped its own euid inside the apply), valid_object, valid_seteuid and valid_bind verdicts "
+            "(1, 0, other ints, string, array, 0, runtime error) are switched during the case; one case in four under another "
+            "configuration (master without get_root_uid / get_bb_uid / valid_bind, simul_efun object as actor); a case is "
+            "non-trivial when its trace has >= 2 lines; distinct = distinct canonical implementation trace")
     not_covered = ["the branch of clone_object that re-uses an unreferenced virtual object instead of asking compile_object again (ob->ref == 1) cannot occur with registered objects and is not modelled",
-                   "loads started by the driver itself without a current_object (preload, connect(); the translator tie `tie_load_no_current` covers the guard) and creation from "
-                   "call_out/heart_beat contexts are not exercised (the euid tests read only current_object: regenerated guards mention nothing else)",
                    "a master apply that calls back into a creating object OTHER than the master (e.g. makes a wizard's object seteuid(0) during creator_file) is not modelled: "
                    "the object would still be created (give_uid_to_object does not re-test); only the master's callback into itself is run and proved",
                    "a master without get_root_uid() is not reloaded in the harness (its uids would come from an unlogged creator_file answer of the old master); "
-                   "reload_object(master) and destruct of the simul_efun object are refused by harness / driver and only that refusal is compared",
+                   "destruct of the simul_efun object is refused by the driver and only that refusal is compared",
                    "bind() is exercised with efun pointers (find_object(path, 1) / clone_object) only; simul_efun pointers and the "
-                   "FP_NOT_BINDABLE refusals are pinned by tie_bind_shape but not run; f_bind copies the reference count of the old pointer (leak, not a uid matter)",
+                   "FP_NOT_BINDABLE refusals are in tie_bind_tree but not run; f_bind copies the reference count of the old pointer (leak, not a uid matter)",
                    "uid records (userid_t, AVL tree, add_uid / uidcmp) are modelled as names: valid because no record is ever renamed after the first master load (tie_uid_records_never_renamed)",
-                   "shadows, hidden objects, 'Cannot clone from a clone', inherit chains (load_object restarts itself and so repeats its test) and valid_object are not modelled",
+                   "call_other / tell_room / filter on a file name, preload, connect, call_out and heart_beat have no model of their own: they are compared with the plain load / clone / op "
+                   "of the same actor (move_object(file name), map with a string object are not exercised)",
+                   "inherit: ONE inheriting blueprint (/c20/u1/i inherits /c20/u2/a, depth 1); an unloaded inheriting blueprint is not cloned (harness answers nobj); "
+                   "num_objects_this_thread / MaxInheritDepth are not modelled",
+                   "shadows, hidden objects, 'Cannot clone from a clone', a cloner destructed while its blueprint loads are not modelled",
                    "load_object leaves a never-created object in the object table when valid_object/creator_file raise (C08 territory); "
-                   "the model mirrors it (`half`), only its uid is repaired by the second fix: commit"]
+                   "the model mirrors it (`half`; the harness cannot destruct such an object), only its uid is repaired by the second fix: commit"]
 
     def gen_extra(self, ctx, bdir):
         # AUTO_SETEUID is recorded as a constant; the model has no rule for it because the source has none.
@@ -177,10 +197,15 @@ class C20(Prop):
     # efuns that reach load_object through find_or_load_object with the caller as current_object are harness ops of their
     # own (`call,<path>` = call_other on a file name, `calla` = inside an array of targets, `tellroom` = tell_room on a file
     # name); the model knows ONE load: they are compared with (and judged as) its `load` op
-    ALIAS = re.compile(r"(?<![A-Za-z0-9_])(?:call|calla|tellroom),(?=/)")
+    ALIAS = re.compile(r"(?<![A-Za-z0-9_])(?:call|calla|tellroom|filter|preload),(?=/)")
+    # `do <oid> later,<op>` / `hb,<op>`: the same op, started by the driver from a call_out / the object's heart_beat
+    # (current_object = that object): compared with and judged as the plain op
+    DRIVEN = re.compile(r"^(do \S+ )(?:later|hb),")
+    CONNECT = re.compile(r"^(do m )connect,")          # mudlib_connect() -> master connect() -> a clone op of the master
 
     def run_model(self, ctx, cases):
-        mapped = [E.Case(c.id, [self.ALIAS.sub("load,", l) if l.startswith(("do ", "script ")) else l for l in c.lines], c.meta)
+        mapped = [E.Case(c.id, [self.ALIAS.sub("load,", self.CONNECT.sub(r"\1clone,", self.DRIVEN.sub(r"\1", l))) if l.startswith(("do ", "script ")) else l
+                                for l in c.lines], c.meta)
                   for c in cases]
         return E.nvdrive(self.id, "model", E.cases_text(mapped))
 
@@ -189,7 +214,7 @@ class C20(Prop):
         for l in lines:
             l = l.rstrip()
             if l.startswith("do "):
-                l = self.ALIAS.sub("load,", l)
+                l = self.ALIAS.sub("load,", self.CONNECT.sub(r"\1clone,", self.DRIVEN.sub(r"\1", l)))
             if not l or l.startswith("sanitizer "):
                 continue
             if l.startswith("crash"):
@@ -339,6 +364,65 @@ class C20(Prop):
                              "do m load,/c20/odd/a", "do u1a seteuid,s:Root", "do u1a load,/c20/u1/b", "do u1a load,/c20/root/a",
                              "do u2a seteuid,s:backbone", "do u2a load,/c20/bb/a", "do u2a load,/c20/u2/b", "do odda seteuid,s:u1",
                              "pol cf u1 s:u1", "do odda load,/c20/u1/c", "do odda export,u1b", "do m seteuid,s:root", "do m load,/c20/root/b"])
+        # reload_object(master()) is open to everybody: the master's euid is reset to 0 (it stays exempt from the euid tests)
+        mk("reload-master", ["do m load,/c20/u1/a", "do u1a reload,m", "do m load,/c20/bb/a", "pol vs m * i:1", "do m seteuid,s:Root",
+                             "do m reload,m", "do m clone,c1,/c20/bb/b", "script /c20/master seteuid,s:zed;load,/c20/u1/b", "do u1a reload,m",
+                             "script /c20/u2/a reload,m", "do m load,/c20/u2/a", "script /c20/master -", "do m load,/c20/u2/b",
+                             "do u1a later,reload,m", "do m dest,m", "do u1a reload,m"])
+        # ---- round 6: inherit - /c20/u1/i.c inherits /c20/u2/a: load_object loads the inherited file first (same current_object: euid test,
+        # valid_object, creator_file, create() of its own) and then starts again (test repeated)
+        mk("inherit", ["do m load,/c20/u1/a", "do u1a load,/c20/u1/i", "do u1a seteuid,s:u1", "do u1a load,/c20/u1/i", "do u1a load,/c20/u1/i",
+                       "do m dest,u1i", "do m clone,c1,/c20/u1/i", "do m load,/c20/u1/i", "do m clone,c1,/c20/u1/i", "do m dest,u1i",
+                       "do m dest,u2a", "pol cf u2 err", "do u1a load,/c20/u1/i", "pol cf u2 s:u2", "do u1a call,/c20/u1/i",
+                       "do m dest,u1i", "do m dest,u2a", "pol vo u2 i:0", "do u1a load,/c20/u1/i", "pol vo u2 -",
+                       "script /c20/u2/a reload,u1a", "do u1a seteuid,s:u1", "do u1a load,/c20/u1/i", "do u1a seteuid,s:u1",
+                       "do u1a load,/c20/u1/i", "do m dest,u1i", "do m dest,u2a", "script /c20/u2/a load,/c20/u1/i",
+                       "do m load,/c20/u1/i", "script /c20/u1/i seteuid,s:zed;load,/c20/bb/a", "do m dest,u1i", "do m dest,u2a",
+                       "script /c20/u2/a -", "do m hb,load,/c20/u1/i", "pol co odd t:/c20/u1/i", "do m load,/c20/odd/v1"])
+        # the inherited file's create() makes the loader lose its euid: the restarted load_object of the inheriting file must refuse
+        mk("inherit-loader-loses-euid", ["script /c20/u2/a reload,u1a", "do m load,/c20/u1/a", "do u1a seteuid,s:u1", "do u1a load,/c20/u1/i",
+                                         "do u1a seteuid,s:u1", "do u1a load,/c20/u1/i"])
+        mk("inherit-parent-aborted", ["do m load,/c20/u1/a", "do u1a seteuid,s:u1", "pol cf u2 err", "do u1a load,/c20/u1/i",
+                                      "pol cf u2 s:u2", "do u1a load,/c20/u1/i", "do u1a load,/c20/u2/a"])
+        mk("inherit-parent-refused", ["do m load,/c20/u1/a", "do u1a seteuid,s:u1", "pol vo u2 i:0", "do u1a load,/c20/u1/i", "pol vo u2 err",
+                                      "do u1a load,/c20/u1/i", "pol vo u2 i:1", "do u1a load,/c20/u1/i", "pol vo u1 i:0", "do m dest,u1i",
+                                      "do u1a load,/c20/u1/i"])
+        # ---- round 6: master::valid_object - asked about every new blueprint before creator_file; refusal destructs it again
+        mk("valid-object", ["pol vo u1 i:0", "do m load,/c20/u1/a", "do m clone,c1,/c20/u1/a", "pol vo u1 i:1", "do m load,/c20/u1/a",
+                            "do m clone,c1,/c20/u1/b", "pol vo u2 err", "do m load,/c20/u2/a", "do m load,/c20/u2/a", "pol vo u2 s:ok",
+                            "do m load,/c20/u2/b", "pol vo u2 arr", "do m clone,c2,/c20/u2/c", "pol vo bb none", "do m load,/c20/bb/a",
+                            "pol vo bb -", "do m load,/c20/bb/a", "pol vo odd i:-1", "pol cf odd drop+s:Backbone", "do m load,/c20/odd/a",
+                            "script /c20/root/a load,/c20/root/b", "pol vo root i:0", "do m load,/c20/root/a", "pol co u1 t:/c20/root/c",
+                            "do m load,/c20/u1/v1", "do u1a call,/c20/root/c", "do u1a seteuid,s:u1", "do u1a filter,/c20/root/c"])
+        # ---- round 6: loaders whose euid differs from their uid (master-approved foreign seteuid) - every creation rule, for load,
+        # clone and virtual objects (the class of the independently written change C20-5: backbone objects get the loader's EUID)
+        mk("foreign-euid-loader", ["do m load,/c20/root/a", "do roota seteuid,s:zed", "do roota load,/c20/bb/a", "do roota clone,c1,/c20/bb/b",
+                                   "do roota load,/c20/root/b", "do roota clone,c2,/c20/root/b", "do roota load,/c20/u1/a",
+                                   "pol cf u2 s:zed", "do roota load,/c20/u2/a", "do roota clone,c3,/c20/u2/b",
+                                   "pol co odd t:/c20/bb/c", "do roota load,/c20/odd/v1", "do roota clone,c4,/c20/odd/v1",
+                                   "do c1 seteuid,s:zed", "do c1 seteuid,s:Root", "do bba clone,c5,/c20/bb/b", "do bba seteuid,s:x9",
+                                   "do bba clone,c6,/c20/bb/b", "do c6 load,/c20/root/c"])
+        # export_uid chains: a uid travels A -> B -> C only through euids that the master approved on the way
+        mk("export-chain", ["do m load,/c20/u1/a", "do m load,/c20/u2/a", "do m load,/c20/odd/a", "do u1a seteuid,s:zed",
+                            "do u1a export,u2a", "do u2a export,odda", "do u2a seteuid,s:zed", "do u2a export,odda",
+                            "do odda seteuid,s:x9", "do u2a export,odda", "do odda export,u1a", "do odda seteuid,i:0",
+                            "do u1a export,odda", "pol vs u2a * i:0", "do u2a seteuid,i:0", "do u2a seteuid,s:zed", "do odda export,u2a",
+                            "do odda seteuid,s:zed", "do odda export,u2a", "do u2a export,u2a"])
+        # geteuid(function) / bind() with foreign owners: the pointer's owner (new owner) has an euid that is not its uid
+        mk("funptr-foreign-owner", ["do m load,/c20/u1/a", "do m load,/c20/u2/a", "do u1a seteuid,s:zed", "do u2a via,u1a,load,/c20/bb/a",
+                                    "do u2a bind,u1a,clone,c1,/c20/bb/b", "do u2a via,u1a,seteuid,s:Root", "do u2a via,u1a,export,u2a",
+                                    "do u2a bind,u1a,load,/c20/root/a", "do u2a via,u1a,seteuid,i:0", "do u2a bind,u1a,load,/c20/root/b",
+                                    "do u2a via,u1a,via,u2a,seteuid,s:U1", "do u1a bind,u2a,clone,c2,/c20/u2/b"])
+        # driver-started contexts: the op runs from a call_out / from the actor's heart_beat (no caller, current_object = actor)
+        mk("driver-started", ["do m load,/c20/u1/a", "do u1a later,load,/c20/u1/b", "do u1a hb,clone,c1,/c20/u1/b", "do u1a later,seteuid,s:u1",
+                              "do u1a hb,load,/c20/u1/b", "do u1a later,clone,c1,/c20/bb/a", "do m hb,load,/c20/bb/b", "do m later,dest,m",
+                              "do zz later,load,/c20/u1/c", "do u1a hb,export,u1b", "do u1b later,via,u1a,load,/c20/u2/a",
+                              "do u1b hb,bind,u1a,load,/c20/u2/b", "script /c20/u2/c load,/c20/odd/a", "do u1a later,load,/c20/u2/c",
+                              "do u1a hb,reload,u1b", "do u1b hb,call,/c20/root/a", "do m preload,/c20/root/b", "do m preload,/c20/root/b",
+                              "do m preload,/c20/zz/nofile", "pol cf bb err", "do m preload,/c20/bb/c", "do u1a filter,/c20/odd/b",
+                              "do m filter,/c20/odd/b", "do m seteuid,i:0", "do m preload,/c20/odd/c",
+                              "do m connect,c7,/c20/u1/a", "do m connect,c7,/c20/u1/a", "pol cf u1 err", "do m connect,c8,/c20/u1/a",
+                              "do m connect,m,/c20/u1/a", "do m connect,c9,/c20/zz/nofile"])
         # ---- round 5: the other efuns that load an object by name for their caller
         mk("load-by-other-efuns", ["do m load,/c20/u1/a", "do u1a call,/c20/u1/b", "do u1a calla,/c20/u1/b", "do u1a tellroom,/c20/u1/b",
                                    "do u1a seteuid,s:u1", "do u1a call,/c20/u1/b", "do u1a calla,/c20/u1/c", "do u1a tellroom,/c20/u2/a",
@@ -423,7 +507,7 @@ class C20(Prop):
                 kind = rng.weighted([("load", 8), ("clone", 5), ("seteuid", 6), ("seteuid0", 1), ("export", 2), ("bad", 1)])
                 tgt = rng.choice(later_paths) if later_paths and rng.chance(2, 3) else rng.choice(free)
                 if kind == "load":
-                    ops.append("%s,%s" % (rng.weighted([("load", 6), ("call", 1), ("calla", 1), ("tellroom", 1)]), tgt))
+                    ops.append("%s,%s" % (rng.weighted([("load", 6), ("call", 1), ("calla", 1), ("tellroom", 1), ("filter", 1)]), tgt))
                 elif kind == "clone":
                     nclone[0] += 1
                     ops.append("clone,c%d,%s" % (nclone[0], tgt))
@@ -479,6 +563,8 @@ class C20(Prop):
             return rng.choice(ks)
 
         def path():
+            if rng.chance(1, 14):
+                return "/c20/u1/i"          # inherits /c20/u2/a
             if rng.chance(1, 25):
                 return "/c20/%s/%s" % (rng.choice(DIRS + ["zz"]), rng.choice(["nofile", "x"]))
             if virt_dirs and rng.chance(1, 4):
@@ -517,6 +603,10 @@ class C20(Prop):
                 if rng.chance(2, 3):
                     lines.append("do %s dest,m" % actor())
                 continue
+            if rng.chance(1, 30):
+                lines.append("pol vo %s %s" % (rng.choice(DIRS), rng.weighted([("i:0", 3), ("i:1", 2), ("err", 2), ("none", 1), ("s:x", 1),
+                                                                                   ("arr", 1), ("-", 2)])))
+                continue
             if rng.chance(1, 6):
                 if rng.chance(1, 5):
                     lines.append("pol vb %s %s %s" % (rng.choice(sorted(objs) + ["*", "*"]), rng.choice(sorted(objs) + ["*", "*"]),
@@ -553,7 +643,8 @@ class C20(Prop):
                 lines.append(DO(a, "seteuid,i:%d" % rng.choice([1, -1, 5, 0])))
             elif k == "load":
                 p = path()
-                lines.append(DO(a, "%s,%s" % (rng.weighted([("load", 6), ("call", 1), ("calla", 1), ("tellroom", 1)]), p)))
+                lines.append(DO(a, "%s,%s" % (rng.weighted([("load", 6), ("call", 1), ("calla", 1), ("tellroom", 1), ("filter", 1)] +
+                                                              ([("preload", 2)] if a == "m" and not caller else [])), p)))
                 created(a, p)
             elif k == "clone":
                 nclone[0] += 1
@@ -585,7 +676,16 @@ class C20(Prop):
                 if rng.chance(2, 3):
                     lines.append("do %s load,%s" % (actor(), p))
                     created(a, p)
-        return E.Case(cid, lines, {"origin": "generated"})
+        # one top-level op in eight is started by the driver: from a call_out / from the actor's heart_beat
+        out = []
+        for l in lines:
+            if l.startswith("do m clone,") and rng.chance(1, 5):
+                l = "do m connect," + l[len("do m clone,"):]
+            elif l.startswith("do ") and " preload," not in l and rng.chance(1, 8):
+                t = l.split(" ", 2)
+                l = "do %s %s,%s" % (t[1], rng.choice(["later", "hb"]), t[2])
+            out.append(l)
+        return E.Case(cid, out, {"origin": "generated"})
 
     def generate(self, rng, n, tier):
         return [self.gen_case(rng, "g%d" % i) for i in range(n)]
@@ -596,10 +696,15 @@ class C20(Prop):
              "noeuid_clone_error": 0, "compile_object_calls": 0, "virtual_handed_out": 0, "funptr_ops": 0, "funptr_noeuid_refused": 0,
              "master_reloads": 0, "master_reload_refused": 0, "export_onto_self": 0, "nested_ops": 0, "nested_creations": 0, "nested_noeuid_refused": 0, "max_nesting": 0, "backbone_grants": 0, "policy_errors": 0, "nobj": 0, "reloads": 0,
              "crash": 0, "cfg_nobb": 0, "cfg_noroot": 0, "cfg_novb": 0, "cfg_simul": 0, "simul_actor_ops": 0, "simul_dest_error": 0, "cf_callback_drops": 0,
-             "bind_ops": 0, "bind_asked": 0, "bind_denied": 0}
+             "bind_ops": 0, "bind_asked": 0, "bind_denied": 0, "valid_object_asked": 0, "valid_object_denied": 0, "inherit_loads_parent_first": 0}
         alias_ops = 0
+        driven_ops = 0
+        foreign = {"load": 0, "clone": 0, "virtual": 0, "backbone": 0}
         for c in cases:
             alias_ops += sum(len(self.ALIAS.findall(l)) for l in c.lines)
+            driven_ops += sum(1 for l in c.lines if self.DRIVEN.match(l))
+            snapq = {}
+            astack, actor_cur = [], None
             for f in self.cfg_key(c):
                 h["cfg_" + f] += 1
             cur = None
@@ -622,16 +727,34 @@ class C20(Prop):
                         h["nested_ops"] += 1
                     h["max_nesting"] = max(h["max_nesting"], len(stack) - 1)
                     cur = t[2] if len(t) > 2 else ""
+                    astack.append(actor_cur)
+                    actor_cur = t[1]
                     pend_cf = None
+                elif t[0] == "vo":
+                    h["valid_object_asked"] += 1
                 elif t[0] == "vb":
                     h["bind_asked"] += 1
                 elif t[0] == "co":
                     h["compile_object_calls"] += 1
                 elif t[0] == "cf":
+                    if cur and cur.endswith(",/c20/u1/i") and len(t) > 1 and t[1] == "/c20/u2/a":
+                        h["inherit_loads_parent_first"] += 1
                     pend_cf = t[2] if len(t) > 2 else None
                     if pend_cf == "err":
                         h["cf_error"] += 1
+                elif t[0] == "q":
+                    snapq = dict(e.rstrip("*").split("=", 1) for e in t[1:] if "=" in e)
                 elif t[0] == "new":
+                    if pend_cf is not None and stack and cur:
+                        # the creating actor = the `do` line of the innermost running op
+                        ue = snapq.get(actor_cur or "", "")
+                        if "/" in ue:
+                            u, e2 = ue.split("/", 1)
+                            if e2 != "0" and e2 != u:
+                                kind = "virtual" if cur.startswith("clone,v") else ("clone" if cur.startswith("clone") else "load")
+                                foreign[kind] += 1
+                                if pend_cf == "s:Backbone":
+                                    foreign["backbone"] += 1
                     if cur and cur.startswith("reload"):
                         h["reloads"] += 1
                     elif pend_cf is None:
@@ -667,6 +790,8 @@ class C20(Prop):
                         h["noeuid_load_error"] += 1
                     if "without_effective_UID" in r:
                         h["noeuid_clone_error"] += 1
+                    if "valid_object_denied" in r:
+                        h["valid_object_denied"] += 1
                     if "Cannot_destruct_simul" in r:
                         h["simul_dest_error"] += 1
                     if "policy_error" in r:
@@ -676,9 +801,13 @@ class C20(Prop):
                     if len(stack) > 1 and ("no_effective_user" in r or "without_effective_UID" in r):
                         h["nested_noeuid_refused"] += 1
                     cur = stack.pop() if stack else None
+                    actor_cur = astack.pop() if astack else None
                 elif t[0] == "crash":
                     h["crash"] += 1
         h["loads_by_other_efuns_in_cases"] = alias_ops
+        h["driver_started_ops_in_cases"] = driven_ops
+        for k2, v2 in foreign.items():
+            h["creations_by_foreign_euid_loader_" + k2] = v2
         return h
 
 
